@@ -118,6 +118,10 @@ type WFault struct {
 type PoolTask struct {
 	Pools []PoolSpec `json:"pools"`
 	Ops   []PoolOp   `json:"ops"`
+	// Relay: the operations are executed by two simulated tasks taking turns
+	// (the pools are created by one goroutine and used by another, handed over
+	// under a mutex)
+	Relay bool `json:"relay,omitempty"`
 }
 
 type PoolSpec struct {
@@ -125,7 +129,8 @@ type PoolSpec struct {
 	Block int    `json:"block"`
 }
 
-// PoolOp kinds: get (N times from pool P), write (object index Arg of pool P),
+// PoolOp kinds: get (N times from pool P), rr (N rounds, one object from every
+// pool of the task in turn), write (object index Arg of pool P),
 // verify, drop (forget every Arg-th live object of pool P), gc
 type PoolOp struct {
 	Kind string `json:"kind"`
